@@ -154,6 +154,25 @@ class Monitor:
                 self.ids[id(o)] = label
                 self._keep.append(o)
 
+    def rebaseline(self):
+        """Accept the current state as the new baseline (after a caller-side
+        edit of the caller's own document)."""
+        self.check()
+
+    def light_objects(self):
+        """The builtin containers valida could store into without the write
+        tracer seeing it: registered lists / dicts themselves (documents, spec
+        structures) and every list / dict / set held directly in an attribute
+        of a registered valida instance (Schema.rules, Rule.cast, Rule.doc,
+        callable kwargs, Data._values ...).  Small enough to fingerprint at
+        EVERY pre-emption point."""
+        out = [o for o in self.objs if isinstance(o, (list, dict))]
+        for o in self._keep:
+            for v in vars(o).values():
+                if isinstance(v, (list, dict, set)):
+                    out.append(v)
+        return out
+
     def activate(self):
         global _ACTIVE_MONITOR
         _ACTIVE_MONITOR = self
@@ -176,7 +195,7 @@ class Monitor:
         bad = []
         if self.fp_all is not None and _fingerprint(self.objs) == self.fp_all:
             return bad
-        for label, obj, init, fp in zip(self.labels, self.objs, self.init, self.fp):
+        for i, (label, obj, init, fp) in enumerate(zip(self.labels, self.objs, self.init, self.fp)):
             if fp is not None and _fingerprint(obj) == fp:
                 continue  # bit-identical serialisation: nothing changed
             try:
@@ -185,6 +204,11 @@ class Monitor:
                 now = ("unsnappable",)
             if now != init:
                 bad.append((label, diff_path(init, now)))
+            # re-baseline: a change is reported once; later checks look for
+            # *further* changes (and stay cheap while the state stays put)
+            self.init[i] = now
+            self.fp[i] = _fingerprint(obj)
+        self.fp_all = _fingerprint(self.objs)
         return bad
 
 
@@ -390,6 +414,7 @@ class Engine:
         digest_every=31,
         max_steps=400_000,
         on_boundary=None,
+        light_every_step=False,
     ):
         self.world = world
         self.programs = programs
@@ -401,6 +426,10 @@ class Engine:
         self.digest_every = max(1, int(digest_every))
         self.max_steps = max_steps
         self.on_boundary = on_boundary  # callback(engine, caller, op_idx, op, outcome) -> list of violations
+        self.light_every_step = light_every_step
+        self.light = monitor.light_objects() if light_every_step else None
+        self.light_fp = _fingerprint(self.light) if light_every_step else None
+        self.light_checks = 0
 
         self.abort_at = {}
         self.alloc_fail_at = set()
@@ -432,6 +461,7 @@ class Engine:
         self.probes = {}
         self.harness_error = None
         self.killed = False
+        self.suspend_faults = False
         self.last_check_step = 0
         self.digest_checks = 0
         self.cur_frame = None
@@ -442,6 +472,8 @@ class Engine:
 
     # -- bookkeeping -----------------------------------------------------
     def in_caller(self):
+        if self.suspend_faults:
+            return False  # harness-side reference computation during the run
         return self.mode == "op" or threading.get_ident() in self._caller_tids
 
     def log(self, *ev):
@@ -702,6 +734,14 @@ class Engine:
             raise OpTimeout()
         if self.write_since_last_point or step - self.last_check_step >= self.digest_every:
             self.check_digests(f"step {step}")
+        elif self.light_fp is not None:
+            # transient stores into builtin containers (invisible to the write
+            # tracer) are looked for at every single point
+            self.light_checks += 1
+            fp = _fingerprint(self.light)
+            if fp != self.light_fp:
+                self.light_fp = fp
+                self.check_digests(f"step {step} (container fingerprint changed)")
         if step in self.abort_at:
             del self.abort_at[step]
             site = _site(frame)
